@@ -9,4 +9,5 @@ CONSTANTS
   QCap = 0
   Gating = FALSE
   QfRet = TRUE
+  LexG = "full"
 CHECK_DEADLOCK FALSE
